@@ -125,7 +125,8 @@ def sample_content(asg, dims: dict, rng: random.Random, pattern: str | None = No
     for name, idx in exprs.first_use(asg).items():
         cells = cells_of([dims[i] for i in idx])
         pat = pattern or rng.choice(["empty", "one", "half", "half", "full", "most"])
-        n = {"empty": 0, "one": 1, "half": len(cells) // 2, "full": len(cells), "most": max(0, len(cells) - 1)}[pat]
+        n = {"empty": 0, "one": 1, "half": len(cells) // 2, "full": len(cells), "most": max(0, len(cells) - 1),
+             "few": min(3, len(cells))}[pat]
         n = min(n, len(cells))
         chosen = rng.sample(cells, n)
         out[name] = [[list(c), dyadic(rng.choice(VALUE_POOL))] for c in sorted(chosen)]
